@@ -67,11 +67,16 @@ def _params(c):
     return out
 
 
+PREPARE = [None]        # the design module's prepare(top) hook (metadata, placeholder pass), if it defines one
+
+
 def _translate(build, P, index=0):
     """Fresh build; enable translation on the index-th component only; return result dict."""
     try:
         top = build()
         top.elaborate()
+        if PREPARE[0]:
+            PREPARE[0](top)
         c = _components(top)[index]
         c.set_metadata(P.enable, True)
         top.apply(P())
@@ -98,6 +103,7 @@ def main():
     sys.modules[name] = mod
     spec.loader.exec_module(mod)
     build = mod.build
+    PREPARE[0] = getattr(mod, "prepare", None)
     PS = _passes()
     order = ["sv", "yosys"] if order == "sy" else ["yosys", "sv"]
     out = {"results": {}, "repeat": {}, "insts": [], "hashseed": os.environ.get("PYTHONHASHSEED")}
